@@ -226,7 +226,7 @@ PROPS["C17"] = {
 }
 
 def _sym_nontrivial(line, verdict):
-    return not any(k in verdict for k in ("undefined", "unsupported", "too-large", "same-point", "diffunsupported"))
+    return not any(k in verdict for k in ("undefined", "unsupported", "too-large", "same-point", "diffunsupported", "no-oracle", "undecided"))
 
 PROPS["C04"]["modules"] = ["IbexProofs.Props.C04", "IbexProofs.Props.C04hc4"]
 PROPS["C04"]["level_text"] = ("Kernel-checked: (1) the Lean model HC4.revise of ibex's forward-backward contractor (same node order, sequential updates, aliasing) is contracting and keeps every "
@@ -238,15 +238,17 @@ PROPS["C04"]["level_text"] = ("Kernel-checked: (1) the Lean model HC4.revise of 
 PROPS["C08"] = {
     "modules": ["IbexProofs.Props.C08"],
     "harnesses": ["h_sym"],
-    "workloads": lambda tier, seed: [{"harness": "h_sym", "tag": "deriv", "args": ["c08", seed, 400 if tier == "quick" else 15000]}],
+    "workloads": lambda tier, seed: [{"harness": "h_sym", "tag": "deriv", "args": ["c08", seed, 600 if tier == "quick" else 15000]},
+                                     {"harness": "h_sym", "tag": "elementary", "args": ["c08t", seed, 400 if tier == "quick" else 15000]}],
     "nontrivial": _sym_nontrivial,
     "rule": "random differentiable (and 25% non-smooth: abs max min sign chi) rational DAGs, scalar and vector valued, with scalar/vector/matrix arguments, applied functions, linear and nonlinear components mixed; "
             "3 boxes each, optionally after a Jacobian computed on another box; per box: jacobian (3 points), gradient, jacobian of a random subset of rows, single column v, "
             "Hansen matrix with explicit centre (3 points) and default centre; the exact derivative at the point (forward-mode dual numbers over Q) must lie in the interval entry, "
-            "f(x)-f(x0) must lie in H(x-x0) computed with exact interval arithmetic; non-trivial = differentiable at the point and checked",
-    "assumptions": ["transcendental operators are not generated (no exact oracle); Hansen checks are skipped when the box contains a pole of f (enclosure of f unbounded)",
-                    "variable/parameter split overloads (VarSet) not driven yet"],
-    "trusted": ["expr_io.h dumper"],
+            "f(x)-f(x0) must lie in H(x-x0) computed with exact interval arithmetic; workload c08t: scalar expressions with every elementary function (exp ... atanh, atan2, sqrt, abs, max, min, "
+            "chi, sign, pow; nested three deep): gradient and Jacobian over boxes (after unrelated calls) must contain, at 4 points per box, the partial derivatives computed by forward "
+            "differentiation in 160-bit MPFR interval arithmetic (mp_dag.h); non-trivial = differentiable at the point and checked",
+    "assumptions": ["the exact (dual-number) oracle covers rational DAGs; expressions with elementary functions are judged by the MPFR differentiation oracle (trusted); Hansen checks are skipped when the box contains a pole of f (enclosure of f unbounded)"],
+    "trusted": ["expr_io.h dumper", "MPFR forward-differentiation oracle of the harness (mp_dag.h) for expressions with elementary functions"],
     "technique": "Lean 4 proof (dual-number evaluation = true Frechet derivative for every DAG incl. applied functions; accepted checks imply the true partial derivatives are enclosed / the slope inclusion holds; mean-value theorem: a matrix enclosing the derivatives along Hansen's segments is a slope matrix) + exact point oracle on the C++ results",
     "level_text": "Kernel-checked: for every DAG (any size, sharing, vector/matrix operators, indexing, applied functions) and every rational point where dual-number evaluation is defined, the real function is defined near the point and its Frechet derivative is the dual gradient (dual_run_correct); hence an accepted gradpt/jacrows/jaccol line means the TRUE partial derivatives at the point are in the interval Jacobian entries, and an accepted hansenpt line means f(x)-f(x0) is in H(x-x0) for the real numbers; hansen_slope: enclosing the partial derivatives on Hansen's staircase segments yields a slope matrix (n-dimensional, by telescoping the mean value theorem).",
     "level_note": "Trusted: Lean kernel + Mathlib (axioms propext/Classical.choice/Quot.sound); harness/driver glue; the correspondence is sampled at points. Genuine defects found and fixed: Jacobian rows through mis-simplified component functions (5fc0a73f), gradient of x^0 (741fa77e).",
@@ -271,13 +273,16 @@ PROPS["C11"] = {
 PROPS["C12"] = {
     "modules": ["IbexProofs.Props.C12", "IbexProofs.Props.C12nf"],
     "harnesses": ["h_sym"],
-    "workloads": lambda tier, seed: [{"harness": "h_sym", "tag": "diff", "args": ["c12", seed, 400 if tier == "quick" else 15000]}],
+    "workloads": lambda tier, seed: [{"harness": "h_sym", "tag": "diff", "args": ["c12", seed, 600 if tier == "quick" else 15000]},
+                                     {"harness": "h_sym", "tag": "elementary", "args": ["c12t", seed, 400 if tier == "quick" else 15000]}],
     "nontrivial": _sym_nontrivial,
     "rule": "random differentiable rational DAGs (scalar and vector valued, scalar/vector/matrix arguments, applied functions, shared nodes); f.diff() (gradient / Jacobian) and, for scalar f, the second derivative; "
             "decided by the verified symbolic checker (formal partial derivatives of the normal form vs the normal form of the library's derivative, in the documented layout) and at 4 exact rational points "
-            "(forward-mode dual numbers vs exact value of the derivative expression); non-trivial = decided / differentiable at the point",
-    "assumptions": ["chi, saw, matrix-valued functions raise ExprDiffException in the library (outside the statement)", "transcendental operators: not generated (no exact oracle)"],
-    "trusted": ["expr_io.h dumper"],
+            "(forward-mode dual numbers vs exact value of the derivative expression); mutable constants holding special values (0, 1, -1) while the library differentiates, changed afterwards; "
+            "workload c12t: scalar expressions with every elementary function: the library's derivative expression, evaluated at 5 points in 160-bit MPFR interval arithmetic, must meet the "
+            "derivative of f computed by MPFR forward differentiation (mp_dag.h; both enclosures are ~1e-40 wide); non-trivial = decided / differentiable at the point",
+    "assumptions": ["chi, saw, matrix-valued functions raise ExprDiffException in the library (outside the statement)", "expressions with elementary functions are judged by the MPFR oracle (trusted), not by the exact checker"],
+    "trusted": ["expr_io.h dumper", "MPFR evaluation / forward-differentiation oracle of the harness (mp_dag.h) for expressions with elementary functions"],
     "technique": "Lean 4 proof (checkDiff_sound: accepted normal forms => the library's expression is the derivative wherever defined; dual numbers = true derivative) + exact point oracle",
     "level_text": "Kernel-checked: checkDiff_sound - when the verified checker accepts (f, df) then at every real point (where f is defined nearby and df is defined) the entries of df are the partial derivatives of the entries of f in the layout [d f_i / d x_j]; dual_gradient_correct / accepted_derivative_equal - the exact point oracle compares with the TRUE derivative. Every (f, f.diff()) pair generated is submitted to both.",
     "level_note": "Trusted: Lean kernel + Mathlib (axioms propext/Classical.choice/Quot.sound); dumper/driver glue. Genuine defects found and fixed (e37b7124, 5e54ba7c, 2b18df75).",
